@@ -213,6 +213,8 @@ def _len(x):
         return x.n
     if isinstance(x, SymDict):
         return x.size()
+    if isinstance(x, HKResult):
+        return x.length()
     if isinstance(x, GenList):
         cur().py_raise("TypeError", "len of generator")
     from .engine import Obj
@@ -285,7 +287,7 @@ def agg_extreme(e, seq, which, key):
     if not e.must(to_z3(n) > 0):
         if e.branch(to_z3(n) <= 0):
             e.py_raise("ValueError", "%s() arg is an empty sequence" % which)
-    e.assume(z3.And(w.t >= 0, w.t < to_z3(n)))
+    e.axiom(z3.Implies(to_z3(n) > 0, z3.And(w.t >= 0, w.t < to_z3(n))))
     best = seq.get(w)
     kb = e.call(key, [best], {}) if key else best
 
@@ -293,7 +295,7 @@ def agg_extreme(e, seq, which, key):
         x = seq.get(k)
         kx = e.call(key, [x], {}) if key else x
         return (kx <= kb) if which == "max" else (kx >= kb)
-    e.assume(e.forall(n, bound, name="mm"))
+    e.axiom(e.forall(n, bound, name="mm"))
     return best
 
 
@@ -391,10 +393,10 @@ def agg_all(e, n, fn):
         return b_and(*[fn(i) for i in range(cn)])
     b = z3.Bool(e.uniq("all"))
     w = z3.Int(e.uniq("all_w"))
-    e.assume(z3.Implies(b, e.forall(n, fn, name="allq")))
+    e.axiom(z3.Implies(b, e.forall(n, fn, name="allq")))
     wr = z3.And(w >= 0, w < to_z3(n))
     fw = e.under(wr, lambda: zb(fn(Num(w))))
-    e.assume(z3.Implies(z3.Not(b), z3.And(wr, z3.Not(fw))))
+    e.axiom(z3.Implies(z3.Not(b), z3.And(wr, z3.Not(fw))))
     return BoolV(b)
 
 
@@ -442,13 +444,13 @@ def sorted_model(e, s, key, reverse, n_conc=None):
         kt = to_z3(k)
         p = perm(kt)
         inb = z3.And(kt >= 0, kt < to_z3(n))
-        e.assume(z3.Implies(inb, z3.And(p >= 0, p < to_z3(n), inv(p) == kt)))
+        e.axiom(z3.Implies(inb, z3.And(p >= 0, p < to_z3(n), inv(p) == kt)))
         v = s.get(Num(p))
         for (k2, v2) in seen:
             le = (lift(v) <= v2) if not reverse else (lift(v) >= v2)
-            e.assume(z3.Implies(z3.And(inb, k2 >= 0, k2 < to_z3(n), kt <= k2), zb(le)))
+            e.axiom(z3.Implies(z3.And(inb, k2 >= 0, k2 < to_z3(n), kt <= k2), zb(le)))
             ge = (lift(v) >= v2) if not reverse else (lift(v) <= v2)
-            e.assume(z3.Implies(z3.And(inb, k2 >= 0, k2 < to_z3(n), kt >= k2), zb(ge)))
+            e.axiom(z3.Implies(z3.And(inb, k2 >= 0, k2 < to_z3(n), kt >= k2), zb(ge)))
         if not any(kt.eq(k2) for k2, _ in seen):
             seen.append((kt, v))
         return v
@@ -458,6 +460,50 @@ def sorted_model(e, s, key, reverse, n_conc=None):
         return [get(i) for i in range(n_conc)]
     reg.append((s, reverse, out))
     return out
+
+
+def sorted_unique(e, x):
+    """contract D7.  Result U (length K):  U strictly increasing;  every U[k] is some x[w(k)];  every x[i] is U[pos(i)]"""
+    n = x.shape[0]
+    f = x.snapshot_fn()
+    K = e.fresh_int("n_uniq", lo=0)
+    e.axiom(z3.And(K.t <= to_z3(n), z3.Implies(to_z3(n) >= 1, K.t >= 1)))
+    val = z3.Function(e.uniq("uniq"), z3.IntSort(), z3.RealSort())
+    kind = z3.Function(e.uniq("uniq_k"), z3.IntSort(), z3.IntSort())
+    wit = z3.Function(e.uniq("uniq_w"), z3.IntSort(), z3.IntSort())
+    pos = z3.Function(e.uniq("uniq_pos"), z3.IntSort(), z3.IntSort())
+
+    def elem(k):
+        return Num(val(to_z3(k)), kind(to_z3(k)))
+    a, b = z3.Ints(e.uniq("ua") + " " + e.uniq("ub"))
+    ea, eb = elem(Num(a)), elem(Num(b))
+    e.axiom(z3.ForAll([a, b], z3.Implies(z3.And(a >= 0, a < b, b < K.t), zb(ea < eb)), patterns=[z3.MultiPattern(val(a), val(b))]))
+    e.axiom(z3.ForAll([a], z3.Implies(z3.And(a >= 0, a < K.t), z3.And(kind(a) >= -1, kind(a) <= 1)), patterns=[kind(a)]))
+
+    def fn(idx):
+        k = idx[0]
+        kt = to_z3(k)
+        w = wit(kt)
+        inb = z3.And(kt >= 0, kt < K.t)
+        v = elem(k)
+        xw = e.under(z3.And(inb, w >= 0, w < to_z3(n)), lambda: f((Num(w),)))
+        e.axiom(z3.Implies(inb, z3.And(w >= 0, w < to_z3(n), zb(lift(xw) == v))))
+        return v
+    U = Arr((K,), fn, dtype="float")
+    U.strictly_increasing = True
+
+    def position(i):
+        """index in U of the value x[i] (adds the D7 fact for this i)"""
+        it = to_z3(i)
+        p = pos(it)
+        inb = z3.And(it >= 0, it < to_z3(n))
+        xi = e.under(inb, lambda: f((i,)))
+        e.axiom(z3.Implies(inb, z3.And(p >= 0, p < K.t, zb(lift(xi) == elem(Num(p))))))
+        return Num(p)
+    U.position_of = position
+    U.elem = elem
+    U.K = K
+    return U
 
 
 def eng_reg(e, name):
@@ -593,7 +639,7 @@ class SumInfo:
         self.n = n
         self.fn = fn
         self.uf = z3.Function(eng.uniq(name), z3.IntSort(), z3.RealSort())
-        eng.assume(self.uf(0) == 0)
+        eng.axiom(self.uf(0) == 0)
         self.eng = eng
         self.matched = False
 
@@ -606,7 +652,7 @@ class SumInfo:
     def unfold(self, k):
         """Sigma(k+1) == Sigma(k) + f(k)   (instance of the defining recursion, valid for k >= 0)"""
         kt = to_z3(k)
-        self.eng.assume(z3.Implies(kt >= 0, self.uf(kt + 1) == self.uf(kt) + to_real(to_z3(lift(self.fn(k))))))
+        self.eng.axiom(z3.Implies(kt >= 0, self.uf(kt + 1) == self.uf(kt) + to_real(to_z3(lift(self.fn(k))))))
 
 
 def sum_ext(eng, a, b, label="sum_ext"):
@@ -615,9 +661,10 @@ def sum_ext(eng, a, b, label="sum_ext"):
     The premises are proved as S-obligations on a fresh k; only then the conclusion is assumed."""
     if not eng.must(to_z3(a.n) == to_z3(b.n)):
         return False
-    k = eng.fresh_int("k_ext", lo=0, hi=a.n)
-    fa, fb = a.fn(k), b.fn(k)
-    ok = eng.oblige("%s.pointwise" % label, lift(fa) == fb, cls="S")
+    k = Num(z3.Int(eng.uniq("k_ext")))
+    rng = z3.And(k.t >= 0, k.t < to_z3(a.n))
+    goal = eng.under(rng, lambda: zb(lift(a.fn(k)) == b.fn(k)))
+    ok = eng.oblige("%s.pointwise" % label, z3.Implies(rng, goal), cls="S")
     if ok:
         eng.assume(a.uf(to_z3(a.n)) == b.uf(to_z3(b.n)))
     return ok
@@ -625,9 +672,10 @@ def sum_ext(eng, a, b, label="sum_ext"):
 
 def sum_sign(eng, info, label="sum_positive", strict=True):
     """meta-rule Sigma-positivity (trusted, by induction): forall k. f(k) > 0 (>= 0)  ==>  Sigma(n) > 0 if n >= 1 (>= 0)"""
-    k = eng.fresh_int("k_pos", lo=0, hi=info.n)
-    f = lift(info.fn(k))
-    ok = eng.oblige("%s.pointwise" % label, (f > 0) if strict else (f >= 0), cls="S")
+    k = Num(z3.Int(eng.uniq("k_pos")))
+    rng = z3.And(k.t >= 0, k.t < to_z3(info.n))
+    goal = eng.under(rng, lambda: zb((lift(info.fn(k)) > 0) if strict else (lift(info.fn(k)) >= 0)))
+    ok = eng.oblige("%s.pointwise" % label, z3.Implies(rng, goal), cls="S")
     if ok:
         tot = info.uf(to_z3(info.n))
         nz = to_z3(info.n)
@@ -830,7 +878,7 @@ class _NP:
     def sqrt(self, x):
         def ax(e, v, t):
             vr = to_real(v)
-            e.assume(z3.Implies(vr >= 0, z3.And(t >= 0, t * t == vr)))
+            e.axiom(z3.Implies(vr >= 0, z3.And(t >= 0, t * t == vr)))
 
         def conc(v):
             # exact for perfect squares; otherwise keep the irrational symbolic (sqrt(v) >= 0, sqrt(v)^2 == v)
@@ -846,19 +894,19 @@ class _NP:
             ax(cur(), to_z3(f), t)
             if f == 2:
                 # sqrt(2) = 2 * cos(pi/4): both are the positive roots of their defining equations
-                cur().assume(z3.And(_H > 0, _H * _H == z3.Q(1, 2), t == 2 * _H, t * _H == 1))
+                cur().axiom(z3.And(_H > 0, _H * _H == z3.Q(1, 2), t == 2 * _H, t * _H == 1))
             return Num(t)
         return self._uf1("sqrt", x, conc, ax, domain=lambda v: v >= 0)
 
     def exp(self, x):
         def ax(e, v, t):
-            e.assume(t > 0)
+            e.axiom(t > 0)
         return self._uf1("exp", x, math.exp, ax)
 
     def log(self, x):
         def ax(e, v, t):
             vr = to_real(v)
-            e.assume(z3.And(z3.Implies(vr > 1, t > 0), z3.Implies(vr == 1, t == 0), z3.Implies(z3.And(vr > 0, vr < 1), t < 0)))
+            e.axiom(z3.And(z3.Implies(vr > 1, t > 0), z3.Implies(vr == 1, t == 0), z3.Implies(z3.And(vr > 0, vr < 1), t < 0)))
         return self._uf1("log", x, math.log, ax, domain=lambda v: v > 0)
 
     def sin(self, x):
@@ -968,7 +1016,7 @@ class _NP:
             qs = [z3.Int(e.uniq("mq%d" % a)) for a in range(x.ndim)]
             body = zb((lift(f(tuple(Num(q) for q in qs))) <= m) if which == "max" else (lift(f(tuple(Num(q) for q in qs))) >= m))
             rng = z3.And(*[z3.And(q >= 0, q < to_z3(d)) for q, d in zip(qs, x.shape)])
-            e.assume(z3.ForAll(qs, z3.Implies(rng, body)))
+            e.axiom(z3.ForAll(qs, z3.Implies(rng, body)))
             return m
         if x.ndim == 2:
             ax = axis if axis >= 0 else axis + 2
@@ -1049,8 +1097,8 @@ class _NP:
             return bi
         w = e.fresh_int("arg" + which, lo=0, hi=n)
         m = f((w,))
-        e.assume(e.forall(n, lambda k: (lift(f((k,))) <= m) if which == "max" else (lift(f((k,))) >= m), name="aq"))
-        e.assume(e.forall(w, lambda k: (lift(f((k,))) < m) if which == "max" else (lift(f((k,))) > m), name="afq"))
+        e.axiom(e.forall(n, lambda k: (lift(f((k,))) <= m) if which == "max" else (lift(f((k,))) >= m), name="aq"))
+        e.axiom(e.forall(w, lambda k: (lift(f((k,))) < m) if which == "max" else (lift(f((k,))) > m), name="afq"))
         return w
 
     # -- mutation helpers
@@ -1080,10 +1128,18 @@ class _NP:
         buf.writes += 1
 
     def unique(self, x, return_counts=False, axis=None):
-        raise Unsupported("np.unique: use the sorted-unique contract")
+        """D7: np.unique(x) for a 1-d array x = strictly increasing array of the distinct values of x"""
+        if return_counts or axis is not None:
+            raise Unsupported("np.unique with return_counts / axis: modular contract only")
+        if not isinstance(x, Arr) or x.ndim != 1:
+            raise Unsupported("np.unique of non 1-d")
+        return sorted_unique(cur(), x)
 
     def sort(self, x):
-        raise Unsupported("np.sort: use the sorted-unique contract")
+        """D7: np.sort of an array already known strictly increasing is that array"""
+        if getattr(x, "strictly_increasing", False):
+            return x
+        raise Unsupported("np.sort of an arbitrary array")
 
     def pad(self, a, pad_width=None, **kw):
         """D15: zero padding (default mode 'constant')"""
@@ -1168,7 +1224,7 @@ class PiNum(Num):
 
 
 def pi_value():
-    cur().assume(z3.And(_PI > z3.Q(31415926, 10000000), _PI < z3.Q(31415927, 10000000)))
+    cur().axiom(z3.And(_PI > z3.Q(31415926, 10000000), _PI < z3.Q(31415927, 10000000)))
     return Num(_PI)
 
 
@@ -1184,7 +1240,7 @@ def is_quarter_pi(x):
 
 def HALF_SQRT2():
     """cos(pi/4) = sin(pi/4) = h with h > 0 and h*h = 1/2 (A6)"""
-    cur().assume(z3.And(_H > 0, _H * _H == z3.Q(1, 2)))
+    cur().axiom(z3.And(_H > 0, _H * _H == z3.Q(1, 2)))
     return Num(_H)
 
 
@@ -1362,6 +1418,124 @@ def m_bisect_left(seq, x):
     raise Unsupported("bisect_left on %s" % type(seq).__name__)
 
 
+class HKResult:
+    """contract D3 for HopcroftKarp(graph).maximum_matching() on the bipartite graph  left "i" (string keys) - right j (ints):
+    a maximum matching as a two-way dict (len == 2 * size).  size == n  iff  a perfect matching exists.
+    When perfect: mate(i) in graph["i"], mate injective (hence bijective on [0,n))."""
+
+    def __init__(self, eng, graph, n):
+        self.eng = eng
+        self.n = n
+        self.graph = graph
+        self.size = eng.fresh_int("hk_size", lo=0)
+        eng.axiom(self.size.t <= to_z3(n))
+        self.mate = z3.Function(eng.uniq("hk_mate"), z3.IntSort(), z3.IntSort())
+        self.inv = z3.Function(eng.uniq("hk_inv"), z3.IntSort(), z3.IntSort())
+        self.perfect = mkbool(self.size.t == to_z3(n))
+
+    def length(self):
+        return 2 * self.size
+
+    def load(self, key):
+        from .engine import FmtKey
+        e = self.eng
+        if not isinstance(key, FmtKey):
+            raise Unsupported("matching lookup by non-string key")
+        i = key.i
+        it = to_z3(i)
+        # only used when the matching is perfect (every left vertex matched)
+        if not e.must(zb(self.perfect)):
+            if not e.branch(zb(self.perfect)):
+                e.py_raise("KeyError", "unmatched vertex")
+        j = self.mate(it)
+        inb = z3.And(it >= 0, it < to_z3(self.n))
+        e.axiom(z3.Implies(inb, z3.And(j >= 0, j < to_z3(self.n), self.inv(j) == it)))
+        mem = e.under(inb, lambda: zb(self.graph.load(key).mem(Num(j))))
+        e.axiom(z3.Implies(inb, mem))
+        return Num(j)
+
+    def preimage(self, j):
+        """left vertex matched to right vertex j (perfect matching: bijection)"""
+        jt = to_z3(j)
+        i = self.inv(jt)
+        inb = z3.And(jt >= 0, jt < to_z3(self.n))
+        self.eng.axiom(z3.Implies(z3.And(inb, zb(self.perfect)), z3.And(i >= 0, i < to_z3(self.n), self.mate(i) == jt)))
+        return Num(i)
+
+
+class HopcroftKarpModel:
+    def __init__(self, graph):
+        self.graph = graph
+
+    def maximum_matching(self):
+        e = cur()
+        hook = e.ghost.get("hk_hook")
+        if hook is None:
+            raise Unsupported("HopcroftKarp outside a contract that states which graph it is given")
+        return hook(e, self.graph)
+
+
+def m_pairwise_distances(X, Y=None, metric="euclidean", **kw):
+    """D5: sklearn.metrics.pairwise.pairwise_distances(X, Y) = Euclidean distances over *all* columns"""
+    if metric != "euclidean":
+        raise Unsupported("pairwise_distances metric")
+    if Y is None:
+        Y = X
+    w = X.shape[1]
+    if not isinstance(w, int) or not A.same_dim(w, Y.shape[1]):
+        raise Unsupported("pairwise_distances with symbolic / unequal number of columns")
+    fx, fy = X.snapshot_fn(), Y.snapshot_fn()
+
+    def fn(idx):
+        s2 = 0
+        for c in range(w):
+            dlt = fx((idx[0], c)) - fy((idx[1], c))
+            s2 = s2 + dlt * dlt
+        return NP.sqrt(s2)
+    return Arr((X.shape[0], Y.shape[0]), fn, dtype="float")
+
+
+class _Pairwise:
+    pairwise_distances = staticmethod(m_pairwise_distances)
+
+
+class _Metrics:
+    pairwise = _Pairwise()
+    pairwise_distances = staticmethod(m_pairwise_distances)
+
+
+def m_linear_sum_assignment(C):
+    """D4: scipy.optimize.linear_sum_assignment on a square cost matrix with a finite perfect matching:
+    returns (arange(n), col) with col a permutation of [0,n) minimising sum_i C[i, col[i]].
+    The minimum itself is the opaque constant MINSUM(C) (min over all permutations - L-level meaning)."""
+    e = cur()
+    n = C.shape[0]
+    if not A.same_dim(n, C.shape[1]):
+        raise Unsupported("linear_sum_assignment on a non-square matrix")
+    perm = z3.Function(e.uniq("lsa_col"), z3.IntSort(), z3.IntSort())
+    inv = z3.Function(e.uniq("lsa_inv"), z3.IntSort(), z3.IntSort())
+    f = C.snapshot_fn()
+
+    def col(idx):
+        k = to_z3(idx[0])
+        j = perm(k)
+        e.axiom(z3.Implies(z3.And(k >= 0, k < to_z3(n)), z3.And(j >= 0, j < to_z3(n), inv(j) == k)))
+        return Num(j)
+    rows = Arr((n,), lambda idx: idx[0], dtype="int")
+    cols = Arr((n,), col, dtype="int")
+    cols.perm, cols.inv_perm = perm, inv
+    # the assignment's total cost is the optimum and every chosen entry is finite
+    tot = e_sum(e, n, lambda k: f((k, col((k,)))), name="LSAcost")
+    minsum = e.fresh_real("MINSUM")
+    e.axiom(to_z3(lift(tot)) == minsum.t)
+    e.ghost["lsa"] = {"perm": perm, "inv": inv, "minsum": minsum, "n": n, "C": C}
+    return (rows, cols)
+
+
+class _Optimize:
+    linear_sum_assignment = staticmethod(m_linear_sum_assignment)
+
+
 class Opaque:
     """stand-in for a library object we never call into during interpretation"""
 
@@ -1446,6 +1620,8 @@ class RepoModuleProxy:
 def _module_model(eng, name, module):
     if name == "numpy":
         return NP
+    if name == "sklearn.metrics" or name == "sklearn":
+        return _Metrics()
     if name == "warnings":
         return _Warnings()
     if name == "itertools":
@@ -1465,6 +1641,9 @@ def _from_model(eng, modname, name):
         "scipy.special.erfc": m_erfc,
         "scipy.spatial.distance.cityblock": m_cityblock,
         "bisect.bisect_left": m_bisect_left,
+        "hopcroftkarp.HopcroftKarp": HopcroftKarpModel,
+        "sklearn.metrics": _Metrics(),
+        "scipy.optimize": _Optimize(),
         "operator.itemgetter": _Operator().itemgetter,
         "operator.attrgetter": _Operator().attrgetter,
         "typing.Iterable": TypeObj("Iterable"),
